@@ -30,9 +30,13 @@ PID = "C11"
 TIERS = {
     "quick": dict(
         vector=[dict(MaxDepth=4, PointIdx={1, 5}, Octants={1, 4, 6}, PartnerIdx=2, Scales={2, 4}),
+                # a Cartesian system rotated against the parent as an extra representation
+                dict(MaxDepth=3, PointIdx={1, 5}, Octants={1, 4, 6, 7}, PartnerIdx=2, Scales={2}, Rotated=True),
                 # vectors with fewer than three components (Cartesian, cylindrical, spherical-on-the-axis)
                 dict(MaxDepth=3, PointIdx={13, 15, 16}, Octants={2, 3, 5}, PartnerIdx=2, Scales={5, 6})],
         field=[dict(MaxDepth=4, PointIdx={1, 5}, Octants={1, 4, 6}, PartnerIdx=2, Scales=set()),
+               # points of the plane z = 0 / the x axis, also given with fewer than three coordinates
+               dict(MaxDepth=3, PointIdx={13, 15}, Octants={1, 2, 3}, PartnerIdx=2, Scales=set()),
                # azimuth-dependent fields at points of all octants (x < 0 included)
                dict(MaxDepth=3, PointIdx={8}, Octants={1, 2, 3, 4, 5, 6, 7, 8}, PartnerIdx=2, Scales=set(), MaxDegree=0,
                     AngleFields=True)],
@@ -41,7 +45,8 @@ TIERS = {
         vector=[dict(MaxDepth=6, PointIdx={1}, Octants={1, 6}, PartnerIdx=4, Scales={2}),
                 dict(MaxDepth=5, PointIdx={1, 5}, Octants={1, 4, 6, 7}, PartnerIdx=4, Scales={2, 4}),
                 dict(MaxDepth=4, PointIdx={1, 2, 3, 4, 5, 6, 7, 8, 9, 10, 11, 12}, Octants={2, 3, 5, 8}, PartnerIdx=1, Scales={3, 7}),
-                dict(MaxDepth=4, PointIdx={13, 14, 15, 16}, Octants={1, 2, 3, 4, 5}, PartnerIdx=2, Scales={2, 5})],
+                dict(MaxDepth=4, PointIdx={13, 14, 15, 16}, Octants={1, 2, 3, 4, 5}, PartnerIdx=2, Scales={2, 5}),
+                dict(MaxDepth=4, PointIdx={1, 2, 5, 13, 16}, Octants={1, 2, 3, 4, 5, 6, 7, 8}, PartnerIdx=4, Scales={2}, Rotated=True)],
         field=[dict(MaxDepth=5, PointIdx={1, 5}, Octants={1, 4, 6, 7}, PartnerIdx=2, Scales=set()),
                dict(MaxDepth=3, PointIdx={2, 3, 6, 8, 12, 13}, Octants={2, 3, 5, 8}, PartnerIdx=2, Scales=set()),
                dict(MaxDepth=4, PointIdx={8, 17}, Octants={1, 2, 3, 4, 5, 6, 7, 8}, PartnerIdx=2, Scales=set(), MaxDegree=0,
@@ -59,15 +64,21 @@ def _init():
     """One Cartesian system and the cylindrical / spherical systems derived from it."""
     global _SYS  # pylint: disable=global-statement
     if _SYS is None:
-        from symplyphysics.core.coordinate_systems.coordinate_systems import CoordinateSystem, coordinates_transform
+        import sympy as sp
+        from symplyphysics.core.coordinate_systems.coordinate_systems import (CoordinateSystem, coordinates_rotate,
+            coordinates_transform)
         c = CoordinateSystem()
         _SYS = {"cart": c, "cyl": coordinates_transform(c, CoordinateSystem.System.CYLINDRICAL),
-                "sph": coordinates_transform(c, CoordinateSystem.System.SPHERICAL)}
+                "sph": coordinates_transform(c, CoordinateSystem.System.SPHERICAL),
+                # Cartesian, turned about z by the angle with cosine 3/5 and sine 4/5 (Rebase!"rot")
+                "rot": coordinates_rotate(c, sp.atan(sp.Rational(4, 3)), c.coord_system.k)}
     return _SYS
 
 
 def _type_name(cs):
     from symplyphysics.core.coordinate_systems.coordinate_systems import CoordinateSystem
+    if cs is _init()["rot"]:
+        return "rot"
     return {CoordinateSystem.System.CARTESIAN: "cart", CoordinateSystem.System.CYLINDRICAL: "cyl",
             CoordinateSystem.System.SPHERICAL: "sph"}[cs.coord_system_type]
 
@@ -99,6 +110,8 @@ def project(kind, comps):
     c = list(comps) + [sp.Integer(0)] * (3 - len(comps))
     if kind == "cart":
         return c
+    if kind == "rot":           # components in the frame turned by (cos, sin) = (3/5, 4/5) about z -> parent frame
+        return [(3 * c[0] - 4 * c[1]) / 5, (4 * c[0] + 3 * c[1]) / 5, c[2]]
     if kind == "cyl":
         r, theta, z = c
         return [r * sp.cos(theta), r * sp.sin(theta), z]
@@ -154,12 +167,17 @@ def make_field(expo, kind, ctor):
     return ScalarField.from_expression(field_expression(expo, kind, *cs.coord_system.base_scalars()), cs)
 
 
-def make_point(cart, kind):
+def make_point(cart, kind, short=False):
+    """The point of the given kind; short=True leaves trailing zero coordinates out (missing = 0)."""
     from symplyphysics.core.points.cartesian_point import CartesianPoint
     from symplyphysics.core.points.cylinder_point import CylinderPoint
     from symplyphysics.core.points.sphere_point import SpherePoint
     cls = {"cart": CartesianPoint, "cyl": CylinderPoint, "sph": SpherePoint}[kind]
-    return cls(*coords_of(cart, kind))
+    coords = coords_of(cart, kind)
+    if short:
+        while len(coords) > 1 and coords[-1] == 0:
+            coords = coords[:-1]
+    return cls(*coords)
 
 
 # ---------------------------------------------------------------------------------------------------------
@@ -249,6 +267,16 @@ def observe_field(ctx, where, field, cart, repr_, obs):
                 # half-angle values are rational but SymPy does not reduce them: decided numerically (40 digits)
                 rec["value"] = _cmp(ctx, where, "field value", out[1], obs["value"], f"{kind} field at the physical point {cart}",
                                     rewrite=ctx.rewrite)
+                # the same point given with fewer coordinates (trailing zeros left out: missing = 0)
+                short = make_point(cart, pk, short=True)
+                if len(list(short.coordinates)) < 3:
+                    try:
+                        _cmp(ctx, where, "field value at a short point", field(short), obs["value"],
+                             f"{kind} field at {cart} given with {len(list(short.coordinates))} coordinates", rewrite=ctx.rewrite)
+                    except HardTimeout:
+                        raise
+                    except Exception as e:  # pylint: disable=broad-except
+                        ctx.problems.append((where, "field value at a short point", f"{kind} field refused its own kind of point: {type(e).__name__}"))
     return rec
 
 
@@ -408,7 +436,7 @@ def steps_of(group, prefix):
 def _consts(c, obj):
     return {"MaxDepth": c["MaxDepth"], "Object": obj, "PointIdx": set(c["PointIdx"]), "Octants": set(c["Octants"]),
             "PartnerIdx": c["PartnerIdx"], "MaxDegree": c.get("MaxDegree", MAX_DEGREE), "Scales": set(c["Scales"]),
-            "AngleFields": bool(c.get("AngleFields", False))}
+            "AngleFields": bool(c.get("AngleFields", False)), "Rotated": bool(c.get("Rotated", False))}
 
 
 def run_tlc_configs(run, sc, tier):
